@@ -113,7 +113,11 @@ func zzK12Ref(msg, c []byte, outLen int) []byte {
 //
 //zz: prop=C15 tier=quick backend=bv use=keccakuf timeout=300 budget=900
 func ZZ_C15_k12_equals_specification_at_chunk_boundary() {
-	n := zzPick("msglen", 0, 1, 166, 167, 168, 8190, 8191, 8192, 8193)
+	lens := []int{0, 1, 166, 167, 168, 8190, 8191, 8192, 8193}
+	if zzThorough() {
+		lens = append(lens, 2, 169, 335, 336, 337, 8189, 8194, 8360, 16383, 16384, 16385)
+	}
+	n := zzPick("msglen", lens...)
 	msg := make([]byte, n)
 	zzFill("msg", msg)
 	s := newDraft10([]byte{}, 1)
@@ -161,7 +165,11 @@ func ZZ_C15_k12_lanes_equal_specification() {
 //zz: prop=C15 tier=quick backend=bv use=keccakuf timeout=300 budget=900
 func ZZ_C15_k12_reset_midway_gives_a_fresh_state() {
 	first := zzPick("firstlen", 1, 8292)
-	n := zzPick("msglen", 1, 8192, 8293)
+	lens := []int{1, 8192, 8293}
+	if zzThorough() {
+		lens = append(lens, 0, 8191, 8193, 16385)
+	}
+	n := zzPick("msglen", lens...)
 	old := make([]byte, first)
 	zzFill("old", old)
 	msg := make([]byte, n)
